@@ -190,7 +190,9 @@ func (p *ProjectRunner) waitIfNeeded(process *types.ProcessConfig) error {
 				}
 			case types.ProcessConditionStarted:
 				log.Info().Msgf("%s is waiting for %s to start", process.ReplicaName, k)
-				proc.waitForStarted()
+				if !proc.waitForStarted() {
+					return fmt.Errorf("process %s depended on %s to start, but it won't run", process.ReplicaName, k)
+				}
 			}
 		} else {
 			log.Error().Msgf("Error: process %s depends on %s, but it isn't running or completed", process.ReplicaName, k)
